@@ -1,99 +1,52 @@
 /-
-GsLemmas -- size-generic linear-algebra lemmas behind the kriging contracts C05 / C06.
-Checked by `lean /verif/lean/GsLemmas.lean` (thorough tier).  The SMT obligations of
-contracts/c05.py, c06.py prove the same statements per enumerated system size; the
-correspondence (matrix A = captured kriging matrix, K = result of the inverse routine,
-k = right-hand side, c = conditioning vector) is hand-written glue (T7).
+  GsLemmas.lean — size-generic pure-mathematics lemmas that connect the contracts of
+  /verif/contracts (checked by `lean` in the thorough tier; Mathlib required).
+
+  The SMT-level obligations establish, per enumerated shape, that the real code hands the
+  block matrix `A`, the right-hand side `k` and the data vector `c` of the kriging system to
+  the inverse / summation kernels.  The lemmas below are the shape-independent consequences.
 -/
 import Mathlib
 
 open Matrix
-
-namespace GsLemmas
-
 set_option linter.unusedSectionVars false
 
-variable {n : Type*} [Fintype n] [DecidableEq n] {R : Type*} [CommRing R]
+variable {n : Type*} [Fintype n] [DecidableEq n]
 
-/-- C05: with A.K = 1 the vector K k solves the kriging system A w = k. -/
-theorem krige_direct_solution (A K : Matrix n n R) (h : A * K = 1) (k : n → R) :
+/-- C05: with `K * A = 1` the weights `w = K * k` solve the kriging system `A w = k`
+    (the estimate `c ⬝ K k` is the estimate of the direct solution). -/
+theorem krige_weights_solve (A K : Matrix n n ℝ) (h : K * A = 1) (k : n → ℝ) :
     A *ᵥ (K *ᵥ k) = k := by
-  rw [Matrix.mulVec_mulVec, h, Matrix.one_mulVec]
+  have h' : A * K = 1 := mul_eq_one_comm.mp h
+  rw [Matrix.mulVec_mulVec, h', Matrix.one_mulVec]
 
-/-- C05: with K.A = 1 every solution of A w = k is K k (the estimate is that of the direct solution). -/
-theorem krige_solution_unique (A K : Matrix n n R) (h : K * A = 1) (w k : n → R)
+/-- C05: the solution is unique. -/
+theorem krige_weights_unique (A K : Matrix n n ℝ) (h : K * A = 1) (k w : n → ℝ)
     (hw : A *ᵥ w = k) : w = K *ᵥ k := by
   rw [← hw, Matrix.mulVec_mulVec, h, Matrix.one_mulVec]
 
-/-- C05: the estimate c^T K k is linear in the conditioning vector c. -/
-theorem krige_estimate_linear (K : Matrix n n R) (k a b : n → R) (α β : R) :
+/-- C06 (exactness): if the right-hand side is column `i` of `A`, the weights are `e_i`. -/
+theorem krige_exact (A K : Matrix n n ℝ) (h : K * A = 1) (i : n) :
+    K *ᵥ (fun j => A j i) = Pi.single i 1 := by
+  have : (fun j => A j i) = A *ᵥ (Pi.single i 1) := by
+    ext j; simp [Matrix.mulVec, dotProduct, Pi.single_apply]
+  rw [this, Matrix.mulVec_mulVec, h, Matrix.one_mulVec]
+
+/-- C05: the estimate is linear in the data vector. -/
+theorem krige_linear (K : Matrix n n ℝ) (k a b : n → ℝ) (α β : ℝ) :
     (α • a + β • b) ⬝ᵥ (K *ᵥ k) = α * (a ⬝ᵥ (K *ᵥ k)) + β * (b ⬝ᵥ (K *ᵥ k)) := by
   simp [add_dotProduct, smul_dotProduct]
 
-/-- C05: a row u of the system reads  sum_j A_uj w_j = k_u ; with the unbiasedness row
-(A_uj = 1 on the conditioning indices, 0 elsewhere, k_u = 1) the weights sum to 1, with a drift
-row (A_uj = f(x_j), k_u = f(x0)) the weights reproduce the drift function. -/
-theorem krige_row (A : Matrix n n R) (w k : n → R) (hw : A *ᵥ w = k) (u : n) :
-    ∑ j, A u j * w j = k u := by
-  have := congrFun hw u
-  simpa [Matrix.mulVec, dotProduct] using this
+/-- C12: the product of orthogonal matrices is orthogonal (rotation = product of Givens rotations). -/
+theorem orth_mul (P Q : Matrix n n ℝ) (hP : Pᵀ * P = 1) (hQ : Qᵀ * Q = 1) :
+    (P * Q)ᵀ * (P * Q) = 1 := by
+  rw [Matrix.transpose_mul, Matrix.mul_assoc, ← Matrix.mul_assoc Pᵀ, hP, Matrix.one_mul, hQ]
 
-/-- C05: unbiased weights reproduce data that are a combination of the constraint rows:
-if c = sum_u beta_u A_u (row combination) then c^T w = sum_u beta_u k_u. -/
-theorem krige_reproduces_rows (A : Matrix n n R) (w k : n → R) (hw : A *ᵥ w = k) (β : n → R) :
-    (β ᵥ* A) ⬝ᵥ w = β ⬝ᵥ k := by
-  rw [← hw, Matrix.dotProduct_mulVec]
-
-/-- C06 (krige_exact): if the right-hand side is column i of A then K k = e_i. -/
-theorem krige_exact (A K : Matrix n n R) (h : K * A = 1) (i : n) :
-    K *ᵥ (A *ᵥ (Pi.single i 1)) = Pi.single i 1 := by
-  rw [Matrix.mulVec_mulVec, h, Matrix.one_mulVec]
-
-/-- column i of A as a matrix-vector product -/
-theorem col_eq_mulVec_single (A : Matrix n n R) (i : n) :
-    A *ᵥ (Pi.single i 1) = fun j => A j i := by
-  ext j
-  simp [Matrix.mulVec, dotProduct, Pi.single_apply]
-
-/-- C06: hence the raw field c^T K k is c_i and k^T K k is k_i. -/
-theorem krige_exact_value (A K : Matrix n n R) (h : K * A = 1) (i : n) (c : n → R) :
-    c ⬝ᵥ (K *ᵥ (A *ᵥ (Pi.single i 1))) = c i := by
-  rw [krige_exact A K h i]
-  simp [dotProduct, Pi.single_apply]
-
-/-- C05: a permutation of the conditioning points (A' = P A P^T, k' = P k, c' = P c as
-reindexing by an equivalence) leaves c^T A^-1 k unchanged: stated through the solutions. -/
-theorem krige_perm_invariant (A K A' K' : Matrix n n R) (σ : n ≃ n)
-    (hK : A * K = 1) (hK' : K' * A' = 1)
-    (hA : ∀ i j, A' (σ i) (σ j) = A i j) (k k' c c' : n → R)
-    (hk : ∀ i, k' (σ i) = k i) (hc : ∀ i, c' (σ i) = c i) :
-    c' ⬝ᵥ (K' *ᵥ k') = c ⬝ᵥ (K *ᵥ k) := by
-  -- u := permuted old weights solve the new system, hence equal the new weights
-  set w := K *ᵥ k with hw
-  have hsol : A *ᵥ w = k := by rw [hw, Matrix.mulVec_mulVec, hK, Matrix.one_mulVec]
-  let u : n → R := fun j => w (σ.symm j)
-  have hu : A' *ᵥ u = k' := by
-    ext i'
-    obtain ⟨i, rfl⟩ := σ.surjective i'
-    have := congrFun hsol i
-    simp only [Matrix.mulVec, dotProduct] at this ⊢
-    rw [hk i, ← this]
-    rw [← Equiv.sum_comp σ]
-    refine Finset.sum_congr rfl ?_
-    intro j _
-    simp [u, hA]
-  have huw : u = K' *ᵥ k' := krige_solution_unique A' K' hK' u k' hu
-  rw [← huw]
-  simp only [dotProduct]
-  rw [← Equiv.sum_comp σ]
-  refine Finset.sum_congr rfl ?_
-  intro j _
-  simp [u, hc]
-
-end GsLemmas
-
-/-- C06: inverse of a positive definite matrix has a non-negative quadratic form (variance <= sill). -/
-theorem GsLemmas.quad_inv_nonneg {n : Type*} [Fintype n] [DecidableEq n] (A : Matrix n n ℝ)
-    (hA : A.PosDef) (k : n → ℝ) : 0 ≤ k ⬝ᵥ (A⁻¹ *ᵥ k) := by
-  have h := hA.inv.posSemidef.dotProduct_mulVec_nonneg k
-  simpa using h
+/-- C09: a sum over ordered pairs of a symmetric term is invariant under relabelling the points
+    by a permutation (permutation invariance of the empirical variogram sums). -/
+theorem pair_sum_perm (σ : Equiv.Perm n) (t : n → n → ℝ) :
+    ∑ i, ∑ j, t (σ i) (σ j) = ∑ i, ∑ j, t i j := by
+  rw [← Equiv.sum_comp σ (fun i => ∑ j, t i j)]
+  apply Finset.sum_congr rfl
+  intro i _
+  exact Equiv.sum_comp σ (fun j => t (σ i) j)
